@@ -2,13 +2,13 @@
   C01 — compiled clauses compute exactly Prolog's answers, in order.
 
   Body level (Theorem A) and program level are proved in Yld/Proofs/CompCorrect.lean,
-  Parametric.lean and Program.lean and restated here; the clause-level facts follow.
-  The one step that is not proved is between the clause activation the generated code performs
-  (a head argument that is a once-occurring plain variable is identified with the argument) and the
-  textbook activation (a fresh variable for every clause variable, then head unification): the two
-  differ in which cells are allocated, so they agree only up to renaming of unbound variables. That
-  step is covered by tie T2 on every run (mode `reference` of the driver uses the textbook
-  activation; the real engine, `compiled` and `reference` must agree on canonical answers).
+  Parametric.lean and Program.lean and restated here; the clause-level facts follow. The clause
+  activation the generated code performs (a head argument that is a once-occurring plain variable
+  is identified with the argument) is proved observationally equal to the textbook activation
+  (Yld/Proofs/Activation.lean), the printed Python text to the compiled predicate (Theorem B), and
+  the chain is put together in `printed_python_computes_prologs_answers`. At the end: for the Horn
+  fragment the answers are measured against the *logical* reading of the program
+  (Yld/Proofs/Logic.lean): every answer is a consequence, and without cut every consequence is found.
 -/
 import Yld.Model.Api
 import Yld.Model.Parser
@@ -19,6 +19,7 @@ import Yld.Proofs.PyDeep
 import Yld.Proofs.Activation
 import Yld.Proofs.WFPreserved
 import Yld.Proofs.EndToEnd
+import Yld.Proofs.Logic
 import Std.Data.String.ToNat
 namespace Yld.C01
 
@@ -196,5 +197,83 @@ theorem printed_python_computes_prologs_answers (e : Engine) (hwf : e.WF) (hsrc 
     ((e.withMode .compiled).query .compiled f name args sched true).2.ending
       = ((e.withMode .reference).query .reference f name args sched).2.ending :=
   printed_text_has_textbook_semantics e hwf hsrc hpy f name args hargs sched h1 h2 hc1 hc2
+
+/-! ### Against the logical reading of the program (Horn fragment)
+
+`Holds preds name args` (Yld/Proofs/Logic.lean) is the least relation closed under the clauses read as
+implications, in all instances, with `=` as identity: no search order, no cut, no depth. -/
+
+/-- **Every answer is a logical consequence of the program.** With no dynamic facts, a query for a
+    goal of the Horn fragment hands to its consumer only worlds in which the goal follows from the
+    program under every solution of the heap: consumers that agree on such worlds give the same run.
+    Every limit; cut included (it only prunes). -/
+theorem consumer_sees_only_consequences (cfg : Cfg) (preds : List Pred) (h : HornCfg cfg preds) (f : Nat) (name : String)
+    (args : List Term) (hname : userName name = true) (w : World) (hdb : w.db = []) (hsc : w.Scoped)
+    (hargs : ∀ t ∈ args, ∀ x ∈ t.vars, x < w.next) (k1 k2 : K) (hq1 : Quiet k1) (hq2 : Quiet k2)
+    (hk : ∀ w', GoalHolds preds name args w' → k1 w' = k2 w') :
+    query cfg f name args k1 w = query cfg f name args k2 w :=
+  query_sound cfg preds h f name args hname w hdb hsc hargs k1 k2 hq1 hq2 hk
+
+/-- … at the API: every instance of every recorded answer follows from the program. -/
+theorem answers_are_logical_consequences (e : Engine) (hwf : e.WF) (preds : List Pred)
+    (h : HornCfg { blacklist := e.blacklist, defs := e.defs, mode := .reference } preds) (hdb : e.w.db = [])
+    (f : Nat) (name : String) (args : List Term) (hname : userName name = true) (hargs : ArgsScoped e args) (sched : Sched)
+    (hc : (e.query .reference f name args sched).2.cyc = false) :
+    ∀ ans ∈ (e.query .reference f name args sched).2.answers,
+      ∃ ts, ans = .fn "$ans" ts ∧ ∀ ρ : Nat → Term, Holds preds name (ts.map (Term.subst ρ)) :=
+  answers_are_consequences e hwf preds h hdb f name args hname hargs sched hc
+
+/-- **Without cut, every consequence is found.** If an instance `θ` of the goal follows from the
+    program, the search does not end normally without having reached it: the consumer that waits for
+    it is triggered, or the limit cuts the search off. -/
+theorem every_consequence_is_found (cfg : Cfg) (preds : List Pred) (h : HornCfg cfg preds)
+    (hnocut : ∀ p ∈ preds, ∀ c ∈ p.clauses, c.body.cutFree = true)
+    (f : Nat) (name : String) (args : List Term) (hname : userName name = true)
+    (w : World) (hdb : w.db = []) (hsc : w.Scoped) (hargs : ∀ t ∈ args, ∀ x ∈ t.vars, x < w.next)
+    (θ : Nat → Term) (hθ : Solves θ w.b) (hh : Holds preds name (args.map (Term.subst θ))) :
+    (query cfg f name args (waitFor θ w.next) w).2 ≠ none :=
+  query_complete cfg preds h hnocut f name args hname w hdb hsc hargs θ hθ hh
+
+/-- The hypothesis `HornCfg` is what loading a Horn program gives. -/
+theorem loading_a_horn_program_gives_a_horn_table (cs : List SClause)
+    (hcs : ∀ c ∈ cs, userName c.name = true ∧ c.name ≠ "=" ∧ c.clause.body.horn = true ∧
+                     defaultBlacklist.contains c.name = false) :
+    HornCfg { blacklist := ({} : Engine).blacklist, defs := (({} : Engine).load .reference cs true).defs, mode := .reference }
+      (groupClauses cs) :=
+  hornCfg_of_load cs hcs
+
+/-- switching every definition to another mode of the model keeps the engine state well-formed -/
+theorem wf_withMode (e : Engine) (h : e.WF) (m : Mode) : (e.withMode m).WF := by
+  refine ⟨h.inScope, h.solvable, h.closed, ?_⟩
+  intro kd hkd d hd
+  simp only [Engine.withMode, List.mem_map] at hkd
+  obtain ⟨kd0, hkd0, rfl⟩ := hkd
+  simp only [List.mem_map] at hd
+  obtain ⟨d0, hd0, rfl⟩ := hd
+  have := h.rows kd0 hkd0 d0 hd0
+  cases d0 <;> simpa [Def.withMode, DefRowsClosed] using this
+
+/-- **The answers of the printed Python are logical consequences of the Prolog program.** The whole
+    chain in one statement, for a Horn program: every predicate run by interpreting the Python text
+    the compiler prints for it; every instance of every recorded answer follows from the clauses read
+    as implications (unless a run is cut off by the limit or builds a cyclic term). -/
+theorem printed_python_answers_are_logical_consequences (e : Engine) (hwf : e.WF) (hsrc : SrcDefs e.defs)
+    (hpy : DefsPyOK (e.withMode .compiled).defs) (preds : List Pred)
+    (h : HornCfg { blacklist := e.blacklist, defs := (e.withMode .reference).defs, mode := .reference } preds)
+    (hdb : e.w.db = []) (f : Nat) (name : String) (args : List Term) (hname : userName name = true)
+    (hargs : ArgsScoped e args) (sched : Sched)
+    (h1 : ((e.withMode .reference).query .reference f name args sched).2.ending ≠ some .oof)
+    (h2 : ((e.withMode .compiled).query .compiled f name args sched true).2.ending ≠ some .oof)
+    (hc1 : ((e.withMode .reference).query .reference f name args sched).2.cyc = false)
+    (hc2 : ((e.withMode .compiled).query .compiled f name args sched true).2.cyc = false) :
+    ∀ ans ∈ ((e.withMode .compiled).query .compiled f name args sched true).2.answers,
+      ∃ ts, ans = .fn "$ans" ts ∧ ∀ ρ : Nat → Term, Holds preds name (ts.map (Term.subst ρ)) := by
+  rw [(printed_text_has_textbook_semantics e hwf hsrc hpy f name args hargs sched h1 h2 hc1 hc2).1]
+  exact answers_are_consequences (e.withMode .reference) (wf_withMode e hwf .reference) preds h hdb f name args hname
+    hargs sched hc1
+
+/-- Not vacuous: `app/3`, its table, a derivation, and the three theorems applied to `app(X,Y,[a])`
+    are in Yld/Proofs/Logic.lean (`app_hornCfg`, `app_holds`, the three `example`s). -/
+example : Holds [appPred] "app" [mkList [.atom "a"], .atom "[]", mkList [.atom "a"]] := app_holds
 
 end Yld.C01
